@@ -35,6 +35,7 @@ def run(module, cfg, workers=16, timeout=900, coverage=False, env=None, simulate
     meta = scratch("tlcmeta")
     gc = "Serial" if workers == 1 else "Parallel"
     props = ["tlc2.tool.queue.IStateQueue=StateDeque"] if dfs else []
+    props.append("java.io.tmpdir=" + meta)          # TLC's own temporary directories go with the metadir (removed below)
     cmd = _java(gc, heap, props) + ["-workers", str(workers), "-metadir", meta, "-noGenerateSpecTE",
                                    "-config", cfg]
     if coverage:
